@@ -197,7 +197,7 @@ func discharge(f *FnVC, o dischargeOpts, stats *runStats) {
 				}
 				// solver incompleteness on quantified goals depends on the random seed: an 'unknown' is retried with
 				// two other seeds (any 'unsat' is a proof; 'sat' is never produced by retrying harder)
-				for extra := 1; extra <= 2 && !ob.Cover && best.verdict != "unsat" && best.verdict != "sat"; extra++ {
+				for extra := 1; extra <= 2 && !ob.Cover && ob.Known == nil && best.verdict != "unsat" && best.verdict != "sat"; extra++ {
 					r2, _ := race(file, o.timeoutS, o.seed+1000*extra, false, nil)
 					if r2.verdict == "unsat" || r2.verdict == "sat" {
 						best = r2
